@@ -1,6 +1,7 @@
 import MicroHttp.Props.C04
 import MicroHttp.Props.Tables
 import MicroHttp.Props.C01
+import MicroHttp.Props.C04Limit
 #print axioms MicroHttp.C04.payload_iff
 #print axioms MicroHttp.C04.payload_error
 #print axioms MicroHttp.C04.payload_rejected_early
@@ -24,3 +25,5 @@ import MicroHttp.Props.C01
 #print axioms MicroHttp.Tables.header_error_display
 #print axioms MicroHttp.Tables.request_error_display
 #print axioms MicroHttp.Tables.bad_request_body
+#print axioms MicroHttp.C04.setLimit_only_limit
+#print axioms MicroHttp.C04.read_after_setLimit
